@@ -283,6 +283,9 @@ class Adapter(object):
       if args["src"] == "data":
         return rb.packet_out(buffer_id=rb.NO_BUFFER, in_port=rb.OFPP_NONE, actions=ab,
                              data=frame("miss"), xid=x)
+      if args["src"] == "both":
+        return rb.packet_out(buffer_id=self._concrete(args["slot"]), in_port=rb.OFPP_NONE, actions=ab,
+                             data=frame("miss"), xid=x)
       return rb.packet_out(buffer_id=self._concrete(args["slot"]), in_port=rb.OFPP_NONE,
                            actions=ab, xid=x)
     if a == "FlowMod":
